@@ -226,6 +226,10 @@ def post_metadata(props=None):
         obl.append(Obl('C18/%s/framework_keys' % U, P, s,
                        z3.And(d1[Dk], m1[Dk] == dur, d1[Rk], Val.is_s(m1[Rk]), d1[Ik], m1[Ik] == B(z3.Not(s.g[OPFLAG][Val.addr(rec)])),
                               z3.BoolVal(ec is not None), ec[0] == rec if ec else z3.BoolVal(False)), oc))
+        # "the recording timestamp": the text of the clock as read DURING this call (not a value computed earlier, e.g. at import)
+        reads = s.g.get('utcnow_reads', [])
+        obl.append(Obl('C18/%s/recorded_at_is_the_clock_read_during_this_call' % U, P, s,
+                       z3.Or(*[z3.And(Val.is_s(m1[Rk]), Val.sv(m1[Rk]) == lib.TOSTR(r_)) for r_ in reads]) if reads else z3.BoolVal(False), oc))
         sm = s.g.get('saved_meta')
         obl.append(Obl('C18/%s/metadata_handed_to_the_recording_once_at_the_end' % U, P, s,
                        z3.And(z3.BoolVal(len([e_ for e_ in s.events if e_[0] == 'add_metadata']) == 1), sm[0] == d1, sm[1] == m1) if sm else z3.BoolVal(False), oc))
